@@ -10,6 +10,11 @@ CHECKS = {
     technique="model-based (stateful) property-based testing: Hypothesis-generated operation histories interpreted against a plain-dict reference model with an invariant after every step; exhaustive enumeration of short continuations; hash-seed replay in fresh subprocesses",
     text="Exploration: histories of 4-30 derivation and evolution operations (primitive customisation, customize, child_attrs / child_attrs_all, Array / Iterable / unwrapped arrays, Mandatory, subclassing, append_field / insert_field) over a pool of models; after every step every pooled model (attributes, ordered fields, parents, validation verdicts on probe sets) is compared by value with a reference model updated by the documented effect of the step: the new type carries exactly the requested constraints, every other model is unchanged except for the documented propagation of added fields to customized variants; at the end field order in type info, schema sequence and XML/JSON output is compared and the history is replayed under three PYTHONHASHSEED values in fresh interpreters. All 2-step (thorough: 3-step) continuations over a 24-operation alphabet are enumerated exhaustively. Held on everything explored; not a proof.",
     note="Trusted: the reference model (Machine) in pbt/props/c15.py. Adding fields to a customized variant (rather than to the class itself) is outside the domain: its effect on sibling variants is undocumented."),
+ "C12": dict(
+    design="DESIGN.md §3 C12",
+    technique="schedule exploration (systematic concurrency testing in the PBT family): real threads made cooperative by a sys.settrace scheduler the harness owns (pbt/sched.py); exhaustive single-pre-emption schedules, a grid of double pre-emptions, Hypothesis-generated pre-emption lists and PCT priority schedules, plus un-scheduled stress; oracle: byte-identical response to the request processed alone, WSDL built at most once, all ?wsdl callers get the sequential document, no escape, no deadlock",
+    text="Exploration: mixes of 2-4 requests (?wsdl, cold and warm rpc calls over XML/SOAP/JSON/HttpRpc, schema-invalid and raising requests) against ONE fresh WsgiApplication on real threads; a scheduler installed with sys.settrace lets exactly one thread run and moves the baton only at yield points (every line inside handle_wsdl_request, wsdl11.py, xml_schema/_base.py, get_cls_attrs, sort_fields, memoize.__call__, __validate_lxml; every call elsewhere under spyne/protocol, server, interface, application.py); spyne's locks are replaced by scheduler-aware ones. Quick: all orders without pre-emption, ALL single-pre-emption schedules (stride 1, both start orders) for 17 of 20 two-thread mixes, an 8x8 grid of double pre-emptions, generated lists of <=4 pre-emptions and PCT schedules for all mixes, 6400 free-running stress requests (~30k schedules). Thorough: all 20 mixes, 48x48 grids (~230k schedules). Bounds: Python line/call granularity (switches inside C code only in the stress part), a line is a yield point the first two times one activation reaches it, 3+ pre-emptions and 3-4-thread mixes sampled.",
+    note="Trusted: the scheduler (pbt/sched.py; selftested on synthetic racy/locked workers), determinism of a request processed alone (each alone-response is computed twice and must agree). Runs whose worker blocks outside the scheduler's view for 2 s are counted inconclusive, never judged."),
  "C10": dict(
     design="DESIGN.md §3 C10",
     technique="mutation-based fuzzing driven by Hypothesis over generated valid requests (exhaustive prefix truncation, byte edits, structure-aware mutants); oracle: nothing escapes, reply is normal or a Client-family fault, no user function ran on a fault",
